@@ -102,12 +102,33 @@ impl DatabaseContext for &Server {
     }
 }
 
+/// `.` and `..` components resolved on the text of the path (the way a URI is normalised),
+/// without asking the file system
+fn normalize_lexically(path: &std::path::Path) -> std::path::PathBuf {
+    let mut normalized = std::path::PathBuf::new();
+    for component in path.components() {
+        match component {
+            std::path::Component::CurDir => {}
+            std::path::Component::ParentDir => {
+                if !normalized.pop() {
+                    normalized.push("..");
+                }
+            }
+            other => normalized.push(other.as_os_str()),
+        }
+    }
+    normalized
+}
+
 impl Server {
     pub fn new(config: ServerConfig) -> Server {
+        // a library path such as "<project>/../notes" names the files the editor calls
+        // "<parent>/notes/...": URIs are compared with the normalised root
+        let root = normalize_lexically(std::path::Path::new(&config.base_path));
         Server {
             base_path: BasePath {
-                base_path: format!("file://{}/", config.base_path),
-                root: std::path::PathBuf::from(&config.base_path),
+                base_path: format!("file://{}/", root.to_string_lossy().trim_end_matches('/')),
+                root,
             },
             database: Database::new(
                 config.state,
